@@ -975,7 +975,9 @@ pub fn run(out: &mut Out, tier: &str, seed: u64, prop: &str) {
     }
     // ---- C19: bare URLs, paths and archive names are never taken for package names ---------------------
     if prop == "C19" {
-        let shapes = ["https://x.org/a-1.0.whl", "git+https://github.com/a/b.git", "file:///tmp/x", "http://h/p?q=1", "/abs/path", "./rel", "../rel/p.tar.gz", "rel/p", "/abs", "/a", "./a", "a/b", "a\\b", "x/", "/", "C:\\x\\y", ".", "..",
+        let shapes = ["https://x.org/a-1.0.whl", "git+https://github.com/a/b.git", "file:///tmp/x", "http://h/p?q=1", "/abs/path", "./rel", "../rel/p.tar.gz", "rel/p", "/abs", "/a", "./a", "a/b", "a\\b", "x/", "/",
+            // a first segment that ends in `-` `_` `.` directly before a character that may follow a name in the grammar
+            "backup_(1)/pkg-1.0-py3-none-any.whl", "dist-[old]/pkg-1.0-py3-none-any.whl", "user_@example.com/repo.tar.gz", "PKG-~1\\pkg-1.0.tar.gz", "a-=b/c", "build.;x/pkg.whl", "v_<1/p.whl", "n.>x/p", "n-!x/p.zip", "C:\\x\\y", ".", "..",
             "requests-2.26.0.tar.gz", "foo.whl", "x.zip", "a.tar.bz2", "a.tgz", "pkg-1.0.tar.xz", "A.TAR.GZ", "a.tar", "a.tbz", "a.tar.lzma", "dir/a.whl", "~/x", "\\\\server\\share", "foo.tar.gz.sig",
             "${VP_HOME_DIR}/x", "a.tlz", "a.txz", "a.tar.lz", "b.b.zip", "n.gz", "tar.gz", "x.tar.gz2",
             // non-ASCII text: byte lengths and char counts differ
